@@ -47,8 +47,14 @@ func newUpdateInterceptor(filter updateFilter) *updateInterceptor {
 }
 
 func (ui *updateInterceptor) HandleUpdate(u ChannelUpdate, r *UpdateResponder) {
-	ui.update <- updateAndResponder{u, r}
-	<-ui.response
+	select {
+	case ui.update <- updateAndResponder{u, r}:
+		<-ui.response
+	case <-ui.response:
+		// The interceptor has been released: whoever awaited the update has
+		// given up, so nobody will ever take it. Blocking here would keep the
+		// caller's machine lock for ever.
+	}
 }
 
 func (ui *updateInterceptor) Accept(ctx context.Context) error {
